@@ -1374,6 +1374,32 @@ func (m *matrix) sitesOfX(fn *ssa.Function, withConst bool) []site {
 	forEachInstr(fn, func(b *ssa.BasicBlock, ins ssa.Instruction) {
 		switch x := ins.(type) {
 		case ssa.CallInstruction:
+			if bi, ok := x.Common().Value.(*ssa.Builtin); ok && bi.Name() == "append" && len(x.Common().Args) == 2 {
+				// pieces appended to a []string
+				if sl, ok := x.Common().Args[1].(*ssa.Slice); ok {
+					if al, ok := sl.X.(*ssa.Alloc); ok {
+						if arr, ok := al.Type().(*types.Pointer).Elem().Underlying().(*types.Array); ok && isStringType(arr.Elem()) {
+							for _, ref := range *al.Referrers() {
+								if ia, ok := ref.(*ssa.IndexAddr); ok {
+									for _, r2 := range *ia.Referrers() {
+										if st, ok := r2.(*ssa.Store); ok && st.Addr == ssa.Value(ia) {
+											if _, isConst := st.Val.(*ssa.Const); !isConst || withConst {
+												out = append(out, site{fn, ins, st.Val})
+											}
+										}
+									}
+								}
+							}
+						}
+					}
+				} else if vs := x.Common().Args[1]; isStringSlice(vs.Type()) {
+					// append(a, b...): the pieces of another collected list (a helper's result)
+					if _, isConst := vs.(*ssa.Const); !isConst {
+						out = append(out, site{fn, ins, vs})
+					}
+				}
+				return
+			}
 			if f := x.Common().StaticCallee(); f != nil && builderWriters[f.String()] && len(x.Common().Args) > 1 {
 				out = append(out, site{fn, ins, x.Common().Args[1]})
 			} else if g := calleeOf(x); g != nil && !m.anchors[g] && g != fn && m.emitsIntoOuterBuilder(g, 0) {
@@ -1386,6 +1412,15 @@ func (m *matrix) sitesOfX(fn *ssa.Function, withConst bool) []site {
 				for _, a := range x.Common().Args[1:] {
 					if _, isConst := a.(*ssa.Const); !isConst || withConst {
 						out = append(out, site{fn, ins, a})
+					}
+				}
+			}
+		case *ssa.Store:
+			// element of a []string literal that collects pieces of text
+			if ia, ok := x.Addr.(*ssa.IndexAddr); ok {
+				if al, ok := ia.X.(*ssa.Alloc); ok && al.Comment == "slicelit" && isStringType(x.Val.Type()) {
+					if _, isConst := x.Val.(*ssa.Const); !isConst || withConst {
+						out = append(out, site{fn, ins, x.Val})
 					}
 				}
 			}
@@ -1544,6 +1579,11 @@ func (m *matrix) writesNonLocal(f *ssa.Function) bool {
 		}
 	})
 	return res
+}
+
+func isStringSlice(t types.Type) bool {
+	sl, ok := t.Underlying().(*types.Slice)
+	return ok && isStringType(sl.Elem())
 }
 
 func isBuilderPtr(t types.Type) bool {
